@@ -193,6 +193,46 @@ TEMPLATES = [
     "message DeepArr {\n    int64[65535] a = 1\n}",
 ]
 
+def _coincidence_templates():
+    """Valid (or nearly valid) schemas built around narrow numeric, positional,
+    naming, mode and length coincidences."""
+    t = []
+    t.append("const P63 = 9223372036854775808\nconst P64 = 18446744073709551616\nconst P64M = 18446744073709551615\nconst P63M = 9223372036854775807\nenum E64 : uint64 {\n    E64_MAX = 18446744073709551615\n    E64_ZERO = 0\n    E64_HALF = 9223372036854775808\n}\nmessage UsesE64 {\n    E64 e = 1\n    E64[2] es = 2\n}")
+    t.append("const CAPD = 64 / 8\nconst CAPE = (3 + 5) * 2 - 8\ntype CapArr = byte[CAPD]\nmessage UsesCapD {\n    CapArr a = 1\n    uint8[CAPE] b = 2\n    CapArr[CAPD] c = 3\n}")
+    t.append("message Max65535 {\n    option max_bytes = 8192\n    byte[8191] a = 1\n    uint7 b = 2\n}")
+    t.append("message Max65535Ext' {\n    byte[8189] a = 1\n    uint7 b = 2\n}")
+    t.append("message Over65535 {\n    byte[8191] a = 1\n    uint8 b = 2\n}")
+    t.append("message F255 {\n" + "\n".join("    bool f%d = %d" % (i, i) for i in range(1, 256)) + "\n}")
+    t.append("message F255Rev {\n" + "\n".join("    uint%d g%d = %d" % ((i % 64) + 1, i, 256 - i) for i in range(1, 256)) + "\n}")
+    t.append("enum M256 : uint8 {\n" + "\n".join("    M256_V%d = %d" % (i, i) for i in range(256)) + "\n}\nmessage UsesM256 {\n    M256 m = 1\n}")
+    t.append("enum M257 : uint9 {\n" + "\n".join("    M257_V%d = %d" % (i, i) for i in range(257)) + "\n}")
+    for n in (255, 256, 1024):
+        t.append("message L%s {\n    bool %s = 1\n}\nconst S%d = \"%s\"" % ("x" * (n - 1), "y" * n, n, "z" * n))
+    deep = ""
+    for d in range(16):
+        deep += "    " * d + "message D%d {\n" % d
+    deep += "    " * 16 + "bool leaf = 1\n"
+    for d in reversed(range(16)):
+        deep += "    " * d + ("    D%d d%d = 2\n" % (d + 1, d + 1) if d < 15 else "") + "    " * d + "}\n"
+    t.append(deep)
+    t.append("message SameLineA {\n    bool x = 1\n} message SameLineB {\n    bool y = 1\n}")
+    t.append("message OneLine { bool z = 1; uint3 w = 2; }")
+    t.append("message OneLine2 { bool z = 1; } enum OneLineE : uint1 { OLE_A = 0; OLE_B = 1; } type OneLineT = uint3; const ONELINE = 1;")
+    t.append("message CmtBeforeClose {\n    bool a = 1\n    // the last thing in the scope is a comment\n}\nenum CmtBeforeCloseE : uint1 {\n    CBC_A = 0\n    // trailing\n}")
+    t.append("message Outer {\n    message Inner {\n        bool b = 1\n    }\n    Inner i = 1\n}\nmessage Outer_Inner {\n    bool c = 1\n}\nmessage OuterInner {\n    bool d = 1\n}\nmessage UsesAll {\n    Outer.Inner a = 1\n    Outer_Inner b = 2\n    OuterInner c = 3\n}")
+    t.append("type Uint8 = uint8\ntype Byte = byte\ntype Bool = bool\ntype Int = int32\ntype Uint = uint64[2]\nmessage UsesTypeNames {\n    Uint8 a = 1\n    Byte b = 2\n    Bool c = 3\n    Int d = 4\n    Uint e = 5\n}")
+    t.append("message Color {\n    bool b = 1\n}\nenum Palette : uint2 {\n    Color = 0\n    Palette = 1\n}\nmessage UsesPalette {\n    Palette p = 1\n    Color c = 2\n}")
+    t.append("message Selfie {\n    uint8 Selfie = 1\n    uint8 selfie = 2\n    uint8 SELFIE = 3\n}")
+    t.append("import KX \"x.bitproto\"\nconst KXC = KX.XC\nconst KX2 = KXC * 2\nmessage UsesKX {\n    KX.XM m = 1\n    byte[KX2] b = 2\n}")
+    t.append("message W24 {\n    uint7 pad = 1\n    uint24 a = 2\n    int40 b = 3\n    uint48 c = 4\n    int56 d = 5\n    uint1 e = 6\n    int63 f = 7\n}")
+    t.append("type Flags = bool[9]\nmessage OnlyFlags {\n    Flags f = 1\n}\nmessage OneBit {\n    bool b = 1\n}\nmessage OneInt64 {\n    int64 v = 1\n}")
+    t.append("enum Big : uint64 {\n    BIG_A = 0\n}\nmessage Nothing {}\nmessage HasBoth {\n    Big b = 1\n    Nothing n = 2\n    Nothing[3] ns = 3\n    Big[2] bs = 4\n}")
+    t.append("type I64A = int64[3]\ntype I64AA = I64A[2]\nmessage Batch {\n    uint3 pad = 1\n    I64AA m = 2\n    int8[5] s8 = 3\n    uint16[5] u16 = 4\n    int32[2] s32 = 5\n}")
+    return t
+
+
+TEMPLATES = TEMPLATES + _coincidence_templates()
+
 HELPER_FILES = {
     "x.bitproto": "proto x\n\nconst XC = 3\n\nenum XE : uint2 {\n    XE_A = 0\n    XE_B = 1\n}\n\ntype XT = uint5[2]\n\nmessage XM {\n    bool b = 1\n    XE e = 2\n}\n",
     "y.bitproto": "proto y\n\nimport \"x.bitproto\"\n\nmessage YM {\n    x.XM m = 1\n}\n",
